@@ -182,6 +182,8 @@ func runC06(c *Ctx) {
 	r.Rule("R5", "in the connect routine every write to per-connection state (socket, buffered I/O, queues, cancel func; directly or through callees), every tracker mutation and every go statement is dominated by the not-already-connected and server-non-empty edges; no dispatch is reachable from it")
 	r.Rule("R6", "on the flag-false path of the teardown there are no stores and no calls other than the unlock")
 	r.Rule("R8", "the wait that precedes DISCONNECTED is not blocked by the library itself (the release discipline of C07.R1, a necessary condition of 'each established connection ends with exactly one DISCONNECTED'): every blocking operation in the region Close waits for is released by something the teardown does before waiting; in particular nothing there acquires a lock the teardown holds across the wait")
+	r.Rule("R9", "a read or write error ends the connection: in every connection goroutine, on the control-flow graph without the edges that imply 'the error is nil', no path leads from an error-returning socket I/O call to a return, or round the loop to the same call, without passing a call of the teardown")
+	r.Rule("R10", "no function the event loop awaits on behalf of a built-in handler (internal and state tables, and all they call) calls the teardown: it would wait for its own event loop and the connection would end with no DISCONNECTED")
 	r.Rule("R7", "the wait that precedes DISCONNECTED terminates as far as accounting goes: WaitGroup.Add constants equal the member spawns on every path and every member goroutine calls Done exactly once on each of its exits (a missed Done means DISCONNECTED is never delivered, a double Done panics)")
 	funcs := c.clientFuncs()
 	ls := c.ComputeLocksets(funcs)
@@ -322,6 +324,8 @@ func runC06(c *Ctx) {
 	c.connectInertRule("R5")
 	c.wgAccounting("R7")
 	c.releaseCensus("R8")
+	c.ioErrorsEndRule("R9")
+	c.handlersNeverTeardown("R10")
 
 	// ---- R6
 	if len(loads) == 1 {
@@ -1252,6 +1256,7 @@ func runC07(c *Ctx) {
 	r.Rule("R2", "no member calls the identity-less teardown after its Done (a late call tears down the next connection)")
 	r.Rule("R3", "every connection goroutine that consumes a queue or does socket I/O calls the teardown on every exit path")
 	r.Rule("R4", "every success path of the connect routine creates fresh inbound and outbound queues and, when tracking, wipes the tracker - after the refusals")
+	r.Rule("R6", "a connection stays up until something ends it: the context its goroutines watch derives from the caller's context by WithCancel only - no WithTimeout / WithDeadline (a dial or handshake time limit, say) lies on its ancestry inside the library")
 	r.Rule("R5", "every go statement in package client is a WaitGroup member (Add constants equal member spawns on every path; each member does exactly one Done per exit), locally joined, the detached background dispatch, or a teardown helper stopped before the teardown returns")
 	funcs, ls, tf := c.releaseCensus("R1")
 	if tf.wait == nil {
@@ -1478,8 +1483,10 @@ func runC07(c *Ctx) {
 		})
 	}
 
-	// the reset keeps "just the client itself": the tracker's own record is never replaced (shared with C12.R7)
-	c.trackerRules(map[string]string{"R7": "R4", "R6": "R4"})
+	// the reset keeps "just the client itself": the tracker's own record is never replaced (shared with C12.R7),
+	// and after it the tracker answers from its state, never from a cache that the reset forgot (C12.R10)
+	c.trackerRules(map[string]string{"R7": "R4", "R6": "R4", "R10": "R4"})
+	c.lifetimeContextRule("R6")
 
 	// ---- R5
 	c.goCensus("R5", tf)
@@ -1685,4 +1692,217 @@ func (c *Ctx) memberRoleKey(m *ssa.Function) string {
 		return c.FuncKey(m)
 	}
 	return "(*client.Conn)." + role
+}
+
+// lifetimeContextRule: every context value handed to a member goroutine (or
+// selected on by one) descends from a caller-supplied context through
+// context.WithCancel only.
+func (c *Ctx) lifetimeContextRule(rule string) {
+	r, a := c.R, c.A
+	n := 0
+	var check func(v ssa.Value, depth int) (bool, string)
+	check = func(v ssa.Value, depth int) (bool, string) {
+		if depth > 8 {
+			return false, "context ancestry too deep"
+		}
+		for _, o := range c.Origins(v) {
+			switch t := o.(type) {
+			case *ssa.Parameter:
+				continue // supplied by the API caller
+			case *ssa.Extract:
+				call, ok := t.Tuple.(*ssa.Call)
+				if !ok {
+					return false, "derives from " + o.String()
+				}
+				switch calleeName(&call.Call) {
+				case "context.WithCancel":
+					if ok2, why := check(call.Call.Args[0], depth+1); !ok2 {
+						return false, why
+					}
+				case "context.WithTimeout", "context.WithDeadline":
+					return false, "derives from " + calleeName(&call.Call) + " at " + c.InstrPos(call) + ": the connection ends when that limit passes"
+				default:
+					return false, "derives from " + calleeName(&call.Call)
+				}
+			case *ssa.Call:
+				switch calleeName(&t.Call) {
+				case "context.Background", "context.TODO":
+				default:
+					return false, "derives from " + calleeName(&t.Call)
+				}
+			default:
+				return false, "derives from " + o.String()
+			}
+		}
+		return true, "caller's context, narrowed by WithCancel only"
+	}
+	for _, fn := range c.clientFuncs() {
+		for _, cs := range CallSites(fn) {
+			g, isGo := cs.(*ssa.Go)
+			if !isGo {
+				continue
+			}
+			cal := g.Call.StaticCallee()
+			if cal == nil || !a.IsMember(cal) {
+				continue
+			}
+			for _, arg := range g.Call.Args {
+				if typeString(arg.Type()) != "context.Context" {
+					continue
+				}
+				n++
+				ok, why := check(arg, 0)
+				r.Add(rule, "lifetime-context:"+c.FuncKey(cal), c.InstrPos(g), c.FuncKey(fn), "the context member "+c.FuncKey(cal)+" watches lives as long as the caller lets it", ok, why)
+			}
+		}
+	}
+	r.Floor(rule, "contexts handed to member goroutines", n, 2)
+}
+
+// doesSocketIO: fn (or something it awaits inside the module) calls a method
+// on the connection's socket or buffered reader/writer.
+func (c *Ctx) doesSocketIO(fn *ssa.Function) bool {
+	a := c.A
+	found := false
+	reach := c.Closure([]*ssa.Function{fn}, func(from *ssa.Function, e Edge) bool { return e.Kind != EdgeGo })
+	for f := range reach.Funcs {
+		funcInstrs(f, func(in ssa.Instruction) {
+			if cc := callOf(in); cc != nil {
+				if c.InModuleFn(cc.StaticCallee()) {
+					return
+				}
+				for _, arg := range cc.Args {
+					if c.derivesFromField(arg, a.IO) || c.derivesFromField(arg, a.Sock) {
+						found = true
+					}
+				}
+				if cc.IsInvoke() && (c.derivesFromField(cc.Value, a.IO) || c.derivesFromField(cc.Value, a.Sock)) {
+					found = true
+				}
+			}
+		})
+	}
+	return found
+}
+
+// ioErrorsEndRule: in every connection goroutine, an error reported by socket
+// I/O ends the connection: on the CFG without the edges that imply "the error
+// is nil", no path leads from the I/O call to a return, or round the loop to
+// the same call, without passing a call of the teardown.
+func (c *Ctx) ioErrorsEndRule(rule string) {
+	r, a := c.R, c.A
+	n := 0
+	isErr := func(t types.Type) bool { return typeString(t) == "error" }
+	for _, m := range a.Members {
+		if is, _ := c.queueOrIOMember(m); !is {
+			continue
+		}
+		for _, cs := range CallSites(m) {
+			call, isCall := cs.(*ssa.Call)
+			if !isCall {
+				continue
+			}
+			cc := cs.Common()
+			io := false
+			if callee := cc.StaticCallee(); callee != nil && c.InModuleFn(callee) {
+				io = callee != a.Teardown && callee != a.TeardownCore && c.doesSocketIO(callee)
+			} else {
+				for _, arg := range cc.Args {
+					if c.derivesFromField(arg, a.IO) || c.derivesFromField(arg, a.Sock) {
+						io = true
+					}
+				}
+			}
+			if !io {
+				continue
+			}
+			var errs []ssa.Value
+			if tup, isT := call.Type().(*types.Tuple); isT {
+				for _, ref := range *call.Referrers() {
+					if ex, isE := ref.(*ssa.Extract); isE && isErr(tup.At(ex.Index).Type()) {
+						errs = append(errs, ex)
+					}
+				}
+			} else if isErr(call.Type()) {
+				errs = append(errs, call)
+			}
+			if len(errs) == 0 {
+				continue
+			}
+			n++
+			isE := func(v ssa.Value) bool {
+				for _, e := range errs {
+					if v == e {
+						return true
+					}
+				}
+				return false
+			}
+			skip := func(from, to *ssa.BasicBlock) bool {
+				cd, ok := edgeCond(from, to)
+				if !ok {
+					return false
+				}
+				cd = unwrapNot(cd)
+				b, isB := cd.V.(*ssa.BinOp)
+				if !isB || !((isE(b.X) && isNilConst(b.Y)) || (isE(b.Y) && isNilConst(b.X))) {
+					return false
+				}
+				return (b.Op == token.NEQ && !cd.True) || (b.Op == token.EQL && cd.True)
+			}
+			seen := ReachFromFiltered(call, false, c.isTeardownCall, skip)
+			bad := ""
+			for in := range seen {
+				if c.isTeardownCall(in) {
+					continue
+				}
+				if in == ssa.Instruction(call) {
+					if bad == "" {
+						bad = "with the error set, control comes round to the same call again without the teardown"
+					}
+				} else if _, isR := in.(*ssa.Return); isR {
+					bad = "with the error set, the return at " + c.InstrPos(in) + " is reached without the teardown"
+				}
+			}
+			why := "every path on which the error may be non-nil calls the teardown before returning or trying again"
+			if bad != "" {
+				why = bad
+			}
+			r.Add(rule, "io-error-ends:"+c.FuncKey(m)+":"+calleeName(cc), c.InstrPos(call), c.FuncKey(m), "an error from socket I/O in "+c.FuncKey(m)+" ends the connection (exactly one DISCONNECTED follows a read or write error)", bad == "", why)
+		}
+	}
+	r.Floor(rule, "error-returning socket I/O calls in connection goroutines", n, 2)
+}
+
+// handlersNeverTeardown: no function the event loop awaits - a handler of the
+// internal or state table and everything it calls - calls the teardown: the
+// teardown waits for the event loop, which waits for the handler.
+func (c *Ctx) handlersNeverTeardown(rule string) {
+	r, a := c.R, c.A
+	var roots []*ssa.Function
+	for _, f := range a.IntTable {
+		roots = append(roots, f)
+	}
+	for _, f := range a.StTable {
+		roots = append(roots, f)
+	}
+	reach := c.Closure(roots, func(from *ssa.Function, e Edge) bool {
+		return e.Kind != EdgeGo && e.Callee != a.Teardown && e.Callee != a.TeardownCore
+	})
+	n := 0
+	for _, fn := range reach.Order {
+		for _, cs := range CallSites(fn) {
+			if _, isGo := cs.(*ssa.Go); isGo {
+				continue
+			}
+			for _, e := range c.Callees(cs) {
+				if e.Callee == a.Teardown || e.Callee == a.TeardownCore {
+					n++
+					r.Add(rule, "handler-teardown:"+c.FuncKey(fn), c.InstrPos(cs), c.FuncKey(fn), "built-in handlers never call the teardown synchronously: it waits for the event loop, which is waiting for this handler - the connection would end with no DISCONNECTED at all", false, "reached from a handler table: "+c.ChainString(reach.Funcs[fn]))
+				}
+			}
+		}
+	}
+	r.Add(rule, "no-handler-teardown", "-", "", fmt.Sprintf("none of the %d functions awaited by the event loop on behalf of built-in handlers calls the teardown", len(reach.Order)), n == 0, fmt.Sprintf("%d calls", n))
+	r.Floor(rule, "functions reachable from built-in handlers", len(reach.Order), 20)
 }
